@@ -253,6 +253,18 @@ def value_model(object_transparent=False):
     return VALUE_MODEL.replace("#[verifier::external_body]\npub struct ObjectRef { _p: () }\n", "") + OBJECT_MODEL
 
 
+def with_wrapper_ctors(model, b, read):
+    """`model` declares its own `pub mod value { use super::*; ..`: value.rs's two generic wrappers
+    (new_val_ref_with_no_source / new_val_ref_with_source) are copied verbatim into it, so a unit over an opaque
+    Value still sees what happens to a value's provenance when the code re-wraps it."""
+    t = value_ctors(b, read, ["new_val_ref_with_no_source", "new_val_ref_with_source"])
+    head = "pub mod value {\n    use super::*;\n"
+    if not t.startswith(head) or model.count(head) != 1:
+        raise Exception("with_wrapper_ctors: unexpected module text")
+    inner = t[len(head):t.rstrip().rfind("}")]
+    return model.replace(head, head + inner)
+
+
 MATCH_EVAL_EXPR_TEMPLATE = """macro_rules! match_eval_expr {
     (
         ( $context:ident, $scopes:ident, $expr:expr )
